@@ -805,9 +805,26 @@ package graphql
 //@   ensures !old(g.always) && from == nil && cond == nil ==> g.always
 //@   ensures !old(g.always) && !(from == nil && cond == nil) ==> !g.always && len(g.spreads) == old(len(g.spreads)) + 1 && g.spreads[old(len(g.spreads))].from == from && g.spreads[old(len(g.spreads))].cond == cond
 
+// C09/C19: eager planning of an object-typed field never descends into a field AST that is already
+// being expanded further up (fragments spreading each other through a field, unvalidated
+// documents): such a field is marked for on-demand planning instead. Every field AST is marked
+// before the descent.
 //@ func Plan.planMergedFieldChildren
+//@   props C09 C19
+//@   nosafety
+//@   requires p != nil && fp != nil
+//@   assigns class:graphql.Plan, class:M|*ast.Field|bool, class:graphql.selectionPlan, class:graphql.fieldPlan, class:graphql.fragmentGate, class:E|graphql.fragmentSpreadEdge, class:M|string|*graphql.fragmentGate, class:M|string|int, class:M|string|bool, class:E|*graphql.fieldPlan, class:E|*ast.Field, class:E|func
+//@   loop 1 invariant forall j in 0..rangeindex+1: !p.expanding[fp.fieldASTs[j]]
+//@   loop 2 invariant forall j in 0..rangeindex+1: p.expanding[fp.fieldASTs[j]]
+//@   loop 2 invariant fp.fieldASTs == old(fp.fieldASTs)
+//@   at call planMergedSelectionsForType: assert forall i in 0..len(fp.fieldASTs): !old(p.expanding[fp.fieldASTs[i]])
+//@   at call planMergedSelectionsForType: assert forall i in 0..len(fp.fieldASTs): p.expanding[fp.fieldASTs[i]]
+//@   at call planMergedSelectionsForType: assert arg2 == fp.fieldASTs && arg3 == fp.astPredicates
+//@   ensures old(len(fp.fieldASTs) > 0 && p.expanding[fp.fieldASTs[0]]) && typeis(unwrapNamedType_0(fp.returnType), "*graphql.Object") ==> fp.plannedOnDemand && calls("planMergedSelectionsForType") == 0
+//@ func unwrapNamedType
 //@   trusted
-//@   assigns class:graphql.fieldPlan
+//@   functional
+//@   assigns nothing
 
 //@ func Plan.planMergedSelectionsForType
 //@   props C19 C01
